@@ -21,6 +21,7 @@ RULE = ("ASTs in the image of the parser: parse of min-/full-/random-parenthesis
         "(exhaustive, identifier/list leaves), (b) random full-grammar terms to depth 7 / 10 "
         "with all literal kinds, hostile strings, namespaces, paths, lambdas, named "
         "parameters. distinct = distinct source text; non-trivial = AST has >= 3 nodes")
+RULE += (" " + 'Also: unary minus (7 contexts) before every literal spelling class; namespaced named-parameter names and lambda variables.')
 ASSUMPTIONS = ["the parser defines which ASTs are in scope (only its image is judged)"]
 EXHAUSTIVE = "all operator pairs and triples (parsed from both renderings)"
 SHARDS = {"quick": 12, "thorough": 16}
